@@ -13,6 +13,8 @@ import (
 
 func init() {
 	register("C20", func(c *core.Ctx, tier string) {
+		containerEffects(c, "C20.6")
+		variadicIndexSafety(c, "C20.7")
 		c20LockDiscipline(c)
 		c20MapDiscipline(c)
 		c20AliasUnderLock(c)
